@@ -349,6 +349,8 @@ def check(prog, run):
     check_memo_keys(prog, run)
     check_seen_scope(prog, run)
 
+    check_default_resolver(prog, run)
+
     # ---- H1 request isolation
     r = run.rule("H1", "no request-scoped state outlives a request: executor caches are instance attributes created in __init__, "
                        "no class-level mutable attributes on executor classes, and mutable default arguments / module tables "
@@ -480,7 +482,8 @@ def check_memo_keys(prog, run):
 def check_seen_scope(prog, run, rule_id="K5"):
     r = run.rule(rule_id, "the visited-fragment set of collect_fields / collect_fields_untyped is scoped to one selection set: only "
                           "their own recursive calls pass it on; every other caller starts a fresh set (a set shared across nesting "
-                          "levels drops a fragment legitimately spread again deeper down)", 3)
+                          "levels drops a fragment legitimately spread again deeper down); a fragment is marked visited only on a path "
+                          "that merged its fields", 3)
     for fname in ("collect_fields", "collect_fields_untyped"):
         target = prog.get_func(CF, fname)
         idx = target.params.index("_seen_fragments") if "_seen_fragments" in target.params else None
@@ -495,8 +498,87 @@ def check_seen_scope(prog, run, rule_id="K5"):
                         run.report(r, "%s:%s:shares-visited-set(%s)" % (f.module.name, f.qualname, fname), f.where(n),
                                    "%s hands its own visited-fragment set to %s: the set then spans several nesting levels and a "
                                    "fragment spread a second time deeper in the document is silently skipped" % (f.qualname, fname))
+        # a fragment is marked visited only on a path that merged its fields
+        loops = [n for n in target.node.body if isinstance(n, ast.For)]
+        shapes.require(len(loops) == 1, "%s: main loop not found" % fname)
+
+        def ev(n):
+            if isinstance(n, ast.Call) and isinstance(n.func, ast.Attribute) and n.func.attr == "add" and "_seen_fragments" in ast.unparse(n.func.value):
+                return "mark"
+            if isinstance(n, ast.Call) and isinstance(n.func, ast.Name) and n.func.id == "_merge":
+                return "merge"
+            return None
+        normal, _ = event_paths(None, ev, body=loops[0].body, may_raise=lambda n: None, cap=12)
+        marked = [seq for seq in normal if "mark" in seq]
+        r.instance("%s: %d iteration paths mark a fragment visited, all of them merge it: %s" % (fname, len(marked), all("merge" in q for q in marked)))
+        shapes.require(bool(marked), "%s: no path marks a fragment as visited" % fname)
+        for seq in marked:
+            if "merge" not in seq:
+                run.report(r, "%s:%s:marked-without-merge" % (CF, fname), target.where(loops[0]),
+                           "a path through the loop marks the fragment as visited without merging its fields (the mark precedes a "
+                           "`continue`): a spread switched off by @skip/@include, or one whose type condition does not apply here, "
+                           "suppresses every later spread of the same fragment in this selection set")
+                break
         # the default must create a fresh set per top-level call
         fresh = any(isinstance(n, ast.Assign) and ast.unparse(n.targets[0]) == "_seen_fragments" and "set()" in ast.unparse(n.value) for n in own_nodes(target.node))
         r.instance("%s creates a fresh set when none is given: %s" % (fname, fresh))
         if not fresh:
             run.report(r, "%s:%s:no-fresh-set" % (CF, fname), target.where(), "%s does not create a fresh visited set per call" % fname)
+
+
+def check_default_resolver(prog, run):
+    """R1: a mapping parent is resolved by key lookup only."""
+    from .. import boolx
+    r = run.rule("R1", "default_resolver: on every execution consistent with `isinstance(root, Mapping)` being true, the parent is "
+                       "only read by key (`.get` / subscript / `in`) and the function returns: no getattr on the mapping and no "
+                       "call of a looked-up value, so a missing key yields null instead of invoking dict.items/keys/get/... with "
+                       "(context, info) (path-consistent walk under the fixed atom; robust to re-orderings of the tests)", 2)
+    f = prog.get_func("py_gql.execution.default_resolver", "default_resolver")
+    run.looked_at(f)
+    a = f.node.args
+    root = a.args[0].arg if a.args else None
+    shapes.require(root is not None, "C04.R1: default_resolver has no positional parameter")
+    defaults = {x.arg: ast.unparse(d) for x, d in zip(a.kwonlyargs, a.kw_defaults) if d is not None}
+    defaults.update({x.arg: ast.unparse(d) for x, d in zip(a.args[len(a.args) - len(a.defaults):], a.defaults)})
+
+    def alias(name):
+        return defaults.get(name, name)
+
+    def is_mapping_test(text_):
+        try:
+            e = ast.parse(text_, mode="eval").body
+        except SyntaxError:
+            return False
+        return (isinstance(e, ast.Call) and isinstance(e.func, ast.Name) and alias(e.func.id) == "isinstance" and len(e.args) == 2
+                and isinstance(e.args[0], ast.Name) and e.args[0].id == root
+                and any(alias(n.id) in ("Mapping", "dict", "MutableMapping", "collections.abc.Mapping")
+                        for n in ast.walk(e.args[1]) if isinstance(n, ast.Name)))
+
+    tests = [t for n in ast.walk(f.node) if isinstance(n, ast.Call) for t in [boolx.text(n)] if is_mapping_test(t)]
+    shapes.require(bool(tests), "C04.R1: default_resolver no longer tests isinstance(root, Mapping)")
+    try:
+        evaluated, exits = boolx.walk_under(f.node, lambda t: True if is_mapping_test(t) else None)
+    except ValueError as e:
+        raise AnalysisError("C04.R1: %s" % e)
+    r.instance("mapping parent: %d evaluated expressions, exits %s" % (len(evaluated), sorted({k for k, _s, _e in exits})))
+    local_values = {n.id for st in ast.walk(f.node) if isinstance(st, ast.Assign) for t in st.targets for n in ast.walk(t) if isinstance(n, ast.Name)}
+    for n, env in evaluated.values():
+        if not isinstance(n, ast.Call):
+            continue
+        if isinstance(n.func, ast.Name) and alias(n.func.id) == "getattr" and n.args and isinstance(n.args[0], ast.Name) and n.args[0].id == root:
+            run.report(r, "py_gql.execution.default_resolver:default_resolver:mapping-getattr", f.where(n),
+                       "with a mapping parent (%s) `%s` is still evaluated: a key missing from the mapping falls through to the "
+                       "mapping's own attributes (items, keys, get, ...), which are then called with (context, info)"
+                       % (", ".join("%s=%s" % kv for kv in sorted(env.items()) if kv[0] != boolx.CALLS), boolx.text(n)))
+        if isinstance(n.func, ast.Name) and n.func.id in local_values and n.func.id not in defaults:
+            run.report(r, "py_gql.execution.default_resolver:default_resolver:mapping-call(%s)" % n.func.id, f.where(n),
+                       "with a mapping parent the looked-up value `%s` is called" % n.func.id)
+    for kind, st, env in exits:
+        if kind != "return":
+            run.report(r, "py_gql.execution.default_resolver:default_resolver:mapping-exit(%s)" % kind, f.where(st) if st is not None else f.where(),
+                       "with a mapping parent the function can %s instead of returning the looked-up value" % kind)
+    # positive control: with a non-mapping parent getattr must be reachable (the walk is not vacuous)
+    ev2, _ = boolx.walk_under(f.node, lambda t: False if is_mapping_test(t) else None)
+    got = [n for n, _e in ev2.values() if isinstance(n, ast.Call) and isinstance(n.func, ast.Name) and alias(n.func.id) == "getattr"]
+    r.instance("object parent: getattr reachable = %s" % bool(got))
+    shapes.require(bool(got), "C04.R1: control failed — getattr(root, ...) is not reached for a non-mapping parent")
